@@ -9,7 +9,7 @@ import sys
 
 from .index import Inconclusive, norm
 from .interp import Interp, Policy, show, show_lit, walk_effects, K, NONE, subterms, mentions
-from .callgraph import _own_nodes
+from .callgraph import _own_nodes, resolve_once
 from .rules_embed import _bind
 
 AF = '_autoforwards'
@@ -742,12 +742,15 @@ def rule_invalidation_tables(check, rule, precision_rule=None):
     loops = [n_ for n_ in fi.node.body if isinstance(n_, (ast.For, ast.While))]
     key = '__init__|revisit'
     selfn = fi.params()[0][0]
-    rev = [l for l in ast.walk(fi.node) if isinstance(l, ast.For) and 'to_revisit' in norm(l.iter)]
+    def it_(l):
+        # (a loop over a local name bound once stands for a loop over what the name was given: an alias of the live list)
+        return norm(resolve_once(fi.node, l.iter))
+    rev = [l for l in ast.walk(fi.node) if isinstance(l, ast.For) and 'to_revisit' in it_(l)]
     wl = [l for l in ast.walk(fi.node) if isinstance(l, ast.While) and 'to_revisit' in norm(l.test)]
     if rev:
         l = rev[0]
-        if norm(l.iter) == '%s.to_revisit' % selfn:
-            body_first = any(isinstance(x, ast.For) and norm(x.iter).endswith('.body') and fi.node.body.index(x) < fi.node.body.index(l)
+        if it_(l) == '%s.to_revisit' % selfn:
+            body_first = any(isinstance(x, ast.For) and it_(x).endswith('.body') and fi.node.body.index(x) < fi.node.body.index(l)
                              for x in fi.node.body if isinstance(x, ast.For) and x in fi.node.body)
             sets_ns = any(isinstance(x, ast.Assign) and any(norm(t) == '%s.namespace' % selfn for t in x.targets) for x in l.body)
             if body_first and sets_ns:
@@ -760,7 +763,7 @@ def rule_invalidation_tables(check, rule, precision_rule=None):
                                 witness='def sub(): inner(*args, **kwargs)  then  kwargs = {}')
         else:
             check.violation(rule, site_of(fi, l), 'the deferred calls are iterated over a copy (%s): processing a deferred call can defer further calls '
-                            '(a forwarding call nested in its arguments), and those are never processed' % norm(l.iter), key=key,
+                            '(a forwarding call nested in its arguments), and those are never processed' % it_(l), key=key,
                             witness='def sub(): return decoy(callee(a, *args, **kwargs))')
     elif wl:
         check.holds(rule, site_of(fi, wl[0]), 'deferred calls are drained by a while loop', key=key)
